@@ -424,12 +424,18 @@ var _ uuid.UUID
 //@ requires [error-nonnil] !isnil($val)
 //@ set sentE = sentE + 1
 //@ end
+//@ at call SearchClient.SearchPartitions
+//@ requires [C09 asks-for-each-partition-once] len($arg2.PartitionIds) == len(partitionIds) && forall i int :: 0 <= i && i < len(partitionIds) ==> uuidOfBytes($arg2.PartitionIds[i]) == partitionIds[i]
+//@ requires [C09 same-query] $arg2.K == k % 4294967296 && $arg2.Query == query
+//@ end
 //@ noclose resultCh errorCh
 //@ requires [wf] this.meta != nil && wg != nil
 //@ ensures [one-message] sentR + sentE == 1
 //@ modifies *
 //@ loop 1
 //@ invariant [none-yet] sentR == 0 && sentE == 0
+//@ invariant [request-ids] len(partitionIdsBytes) == len(partitionIds) && fresh(partitionIdsBytes) && forall i int :: 0 <= i && i <= rangeindex ==> uuidOfBytes(partitionIdsBytes[i]) == partitionIds[i] && allocated(partitionIdsBytes[i])
+//@ invariant [ids-fixed] forall i int :: 0 <= i && i < len(partitionIds) ==> partitionIds[i] == old(partitionIds[i])
 //@ loop 2
 //@ invariant [none-yet] sentR == 0 && sentE == 0
 
